@@ -1,6 +1,7 @@
 package main
 
 import (
+	"fmt"
 	"strings"
 
 	acracensor "github.com/cossacklabs/acra/acra-censor"
@@ -149,7 +150,18 @@ func (e *Env) sqlSpaces(thorough bool) []*Space {
 	a := alphabet{Name: "sql", Tok: toks(`'`, `"`, "`", `\`, "(", ")", "/*", "/*!", "*/", "--", "#", "$", "$1", "E'", "0x", "x'", ":", "?", ";", "\x00", "\x80",
 		"select ", "from ", "where ", "insert ", "values ", "union ", "t", "1", ",", "=", " ")}
 	if !thorough {
-		return e.sigma("sql", "sql", a, 4, decs, nil, nil)
+		// quick: all twelve decoders up to L=3; at L=4 the three lenient-firewall entry points only
+		// (HandleQuery runs HandleRawSQLQuery, which runs the parser, the printer and the normalizer)
+		out := e.sigma("sql", "sql", a, 3, decs, nil, nil)
+		var lenientCensors []*Decoder
+		for _, d := range decs {
+			if strings.HasPrefix(d.Name, "acracensor.") && strings.HasSuffix(d.Name, ",ignore_parse_error]") {
+				lenientCensors = append(lenientCensors, d)
+			}
+		}
+		top := e.sigma("sql", "sql", a, 4, lenientCensors, nil, nil)
+		e.boundInfo["sql"] = fmt.Sprintf("L<=3 over %d tokens for all decoders, L=4 for the ignore_parse_error firewall entry points", len(a.Tok))
+		return append(out, top[4])
 	}
 	// thorough: all twelve decoders up to L=4; at L=5 the six AcraCensor entry points only
 	// (HandleQuery runs HandleRawSQLQuery, which runs the parser twice, the printer and the
